@@ -222,7 +222,10 @@ LateIsLate == /\ lateSet \cap skipped = {}
                      /\ \E i \in 1..Len(out) : out[i].seq = s /\ out[i].late /\ out[i].kind = "doc"
                      /\ InSeq(star, s) /\ lls = s
 StableExposed == stable = IF skipped # {} THEN SetMin(skipped) - 1 ELSE next - 1
-OverdueSkipped == Policy = "exact" => BagSize(pending) <= maxNum   \* more waiting entries than configured are never left behind
+OverdueSkipped ==                                            \* overdue gaps are given up on (tracked as skipped), by count and by age:
+  Policy = "exact" =>
+    /\ BagSize(pending) <= maxNum                            \* more waiting entries than configured are never left behind
+    /\ lastKind = "tick" => (DOMAIN pending = {} \/ \E h \in MinEntries(pending) : ~h.old)   \* a sweep leaves no gap whose head waited > MaxWait
 
 (* auxiliary / design invariants *)
 PendingAhead == \A e \in DOMAIN pending : e.seq > next
